@@ -40,7 +40,7 @@ K_COINC = "dir:separated:coincident-pair:first-direction-only"
 K_SQUARE = "structured-mesh:equal-length-axes:read-as-1d"
 K_ALLMASK = "dir:all-points-masked:result-shape-ignores-directions"
 
-C08_INVS = ["WellFormed", "HalfOpen", "DirWithinIso", "EarlyExitSound", "EarlyFirstSame"]
+C08_INVS = ["WellFormed", "HalfOpen", "DirWithinIso", "DirLengthFree", "EarlyExitSound", "EarlyFirstSame"]
 C09_INVS = {
     "iso": ["PermInvariant", "TranslationInvariant", "OrthoInvariant", "ShiftInvariant", "ScaleCovariant",
             "MissingIsRemoved", "RepresentationIrrelevant", "PerFieldSkipping"],
@@ -108,9 +108,19 @@ DIRS = {2: [(1, 0), (0, 1), (1, 1), (-1, 1), (2, 1), (1, 2), (1, -2), (3, 1), (0
             (0, 0, -2), (1, 2, 2), (0, 1, 1), (-1, 1, 0)]}
 
 
+DSCALES = [(1, 1), (1, 1), (1, 2), (1, 4), (3, 4), (-1, 2), (2, 1), (3, 1), (-1, 1), (-3, 4)]
+
+
 def rand_dirs(rng, dim):
+    """A direction set: integer vectors u and a rational length factor num/den for each of them
+    (dyadic, so that the float image is exact; shorter than u, longer, reversed)."""
     k = rng.choice([1, 1, 2, 2, 3])
-    return tuple(rng.sample(DIRS[dim], k))
+    u = tuple(rng.sample(DIRS[dim], k))
+    if rng.random() < 0.3:
+        sc = tuple((1, 1) for _ in u)
+    else:
+        sc = tuple(rng.choice(DSCALES) for _ in u)
+    return _FrozenRec({"u": u, "s": sc})
 
 
 def rand_gc_points(rng, n):
@@ -641,8 +651,13 @@ def _dir_check(ctx, st, what, call, full, early, v, c, est, entry, early_possibl
           % (what, bad[1] + 1, bad[2], bad[0], inp["tol"], inp["B"], out["sep"]), "dir", st, call, _obs(v, c))
 
 
+def f_dirs(inp):
+    """The direction vectors as given to the real code: (num/den) * u, exact in binary."""
+    return [[sc[0] / sc[1] * x for x in d] for d, sc in zip(inp["dirs"], inp["dsc"])]
+
+
 def dir_kwargs(inp):
-    kw = {"direction": [list(map(float, d)) for d in inp["dirs"]], "angles_tol": TOLS[inp["tol"]]}
+    kw = {"direction": f_dirs(inp), "angles_tol": TOLS[inp["tol"]]}
     if inp["B"]:
         kw["bandwidth"] = inp["B"] / 2.0
     return kw
@@ -652,7 +667,7 @@ def replay_dir_c08(ctx, gs, K, st):
     inp, out = st["inp"], st["out"]
     full, early = _dir_expected(st)
     pa, fa, ed = f_pos(inp["pts"]), f_fields(inp["flds"]), f_edges(inp["E"])
-    du = f_dirs_unit(inp["dirs"])
+    du = f_dirs_unit(f_dirs(inp))
     tol = TOLS[inp["tol"]]
     bw = inp["B"] / 2.0 if inp["B"] else -1.0
     for est in ("m", "c"):
@@ -965,7 +980,7 @@ def replay_points_c09(ctx, gs, K, st, mode):
         pm = _apply_m(m, pa.T).T
         kw = {}
         if mode == "dir":
-            kw["direction"] = _apply_m(m, np.array(inp["dirs"], dtype=float)).tolist()
+            kw["direction"] = _apply_m(m, np.array(f_dirs(inp), dtype=float)).tolist()
         run("axis-permutation/reflection/quarter-turn", pm, fld0, kw)
     else:
         dl = rng.choice([-360.0, 360.0, 720.0])
@@ -1031,8 +1046,13 @@ def replay_points_c09(ctx, gs, K, st, mode):
         run("1d-direction-ignored", pa, fld0, {"direction": [1.0], "angles_tol": 0.1})
         run("1d-angles-ignored", pa[0], fld0, {"angles": 0.3})
     if mode == "dir":
-        dirs = np.array(inp["dirs"], dtype=float)
-        run("direction-length", pa, fld0, {"direction": (dirs * rng.choice([0.37, 2.5, 11.0])).tolist()})
+        dirs = np.array(f_dirs(inp), dtype=float)
+        run("direction-length", pa, fld0, {"direction": (dirs * rng.choice([0.37, 2.5, 11.0, 0.25])).tolist()})
+        # every direction with a length of its own, shorter and longer than 1
+        fac = np.array([rng.choice([0.125, 0.25, 0.5, 0.3, 1.0, 2.0, 7.0]) for _ in dirs])
+        unit = dirs / np.sqrt((dirs * dirs).sum(axis=1))[:, None]
+        run("direction-length:unequal", pa, fld0, {"direction": (unit * fac[:, None]).tolist()})
+        run("direction-length:bare-integer-vectors", pa, fld0, {"direction": [list(map(float, d)) for d in inp["dirs"]]})
         run("direction-sign", pa, fld0, {"direction": (-dirs)})
         table = ANGLES2 if dim == 2 else ANGLES3
         if all(tuple(d) in table for d in inp["dirs"]):
